@@ -169,6 +169,10 @@ def category_specs(exported):
     specs.append(dict(t="user", form="list", strs=[], res=[REGEXES[1]]))
     specs.append(dict(t="user", form="list", strs=[], res=[REGEXES[2]]))
     specs.append(dict(t="user", form="list", strs=["uint8"], res=[REGEXES[1]]))
+    # user categories that derive from an existing category instead of AbstractDtype directly
+    # (specs come AFTER the built-ins, so the base category has always been used first)
+    for base, strs in (("Float", ["float32", "float64"]), ("Integer", ["int8", "uint8"]), ("Shaped", ["bool"]), ("Int", ["float16"])):
+        specs.append(dict(t="user", form="list", strs=strs, res=[], base=base))
     for i in range(len(STRUCTS)):
         specs.append(dict(t="struct", i=i))
     return specs
@@ -180,7 +184,7 @@ def cat_name(s):
     if s["t"] == "struct":
         return f"Struct[S{s['i']}]"
     body = "|".join([f"re:{r}" for r in s["res"]] + list(s["strs"]))
-    return f"User[{s['form']}:{body}]"
+    return f"User[{s['form']}:{body}]" + (f"({s['base']})" if s.get("base") else "")
 
 
 def exported_categories():
@@ -224,7 +228,7 @@ def category_class(spec):
             val = tuple(items)
         else:
             val = list(items)
-        c = type("U" + k, (jaxtyping.AbstractDtype,), {"dtypes": val})
+        c = type("U" + k, (getattr(jaxtyping, spec["base"]) if spec.get("base") else jaxtyping.AbstractDtype,), {"dtypes": val})
     _CLS_CACHE[k] = c
     return c
 
